@@ -24,6 +24,9 @@ _ident_pattern: Pattern = regex_compile(
 )
 
 
+_printable_lines_pattern: Pattern = regex_compile(rb"[ -~\r\n]*")
+
+
 @dataclass
 class DataSetValue:
     """Represent a data set value with optional unit."""
@@ -439,6 +442,9 @@ def decode_p1_readout_content(
     parsed = parse_p1_readout_content(content)
     if not parsed:
         raise ValueError("Content cotains no readout data.")
+    if not _printable_lines_pattern.fullmatch(content):
+        # Data lines consist of printable characters. Anything else is some other (binary) message.
+        raise ValueError("Content is not printable characters and line ends only.")
     return _decode_parsed(parsed)
 
 
